@@ -51,6 +51,7 @@ def kill(i, props, only=None):
         for p in props:
             t0 = time.time()
             env = {'VERIF_ONLY': only} if only else {}
+            env['VERIF_DEBUG_EVIDENCE'] = '1'   # runs on a modified tree never replace evidence/<id>.json
             rc, out = sh('./check %s --tier quick 2>&1' % p, cwd=V, env=env)
             vio = [l for l in out.splitlines() if l.startswith('VIOLATION') or l.startswith('  harness=')]
             inc = [l for l in out.splitlines() if l.startswith('INCONCLUSIVE')]
